@@ -79,6 +79,13 @@ func (r *replica) updateLatestOffset(offset int64) (updated bool) {
 	return
 }
 
+// setLatestOffset sets the replica's latest log offset unconditionally.
+func (r *replica) setLatestOffset(offset int64) {
+	r.mu.Lock()
+	r.offset = offset
+	r.mu.Unlock()
+}
+
 // getLatestOffset returns the replica's latest log offset.
 func (r *replica) getLatestOffset() int64 {
 	r.mu.RLock()
@@ -833,6 +840,17 @@ func (p *partition) becomeLeader(epoch uint64) error {
 		p.Isr = append(p.Isr, p.srv.config.Clustering.ServerID)
 	}
 	rep.updateLatestOffset(p.log.NewestOffset())
+
+	// Latest offsets learned in an earlier leadership term are stale: logs may
+	// have been truncated since. Start this term from what is known now so the
+	// commit point cannot pass messages an ISR replica no longer holds.
+	for id, r := range p.isr {
+		if id == p.srv.config.Clustering.ServerID {
+			r.setLatestOffset(p.log.NewestOffset())
+		} else {
+			r.setLatestOffset(-1)
+		}
+	}
 
 	// Start message processing loop.
 	recvChan := make(chan *nats.Msg, recvChannelSize)
